@@ -57,6 +57,8 @@ def run_product(case):
             evs = tracefs.take_log()
             if list(tree.children) != ["summary", "metadata", "imagery"]:
                 out["bad"].append(("root-children", f"open #{attempt}: children of / are {list(tree.children)}"))
+                if not {"metadata", "imagery"} <= set(tree.children):
+                    continue  # nothing below to look at
             names = list(tree["imagery"].children)
             if names != case["names"]:
                 out["bad"].append(("imagery-groups", f"open #{attempt}: /imagery has {names}, expected {case['names']} (summary order)"))
